@@ -5,8 +5,8 @@ import itertools
 
 from hypothesis import strategies as st
 
-from .. import gen
-from ..cells import BG_NAME, FG_NAME, STYLES, build, cells, cells_of_desc, cells_of_str, fmt_of_atts, show
+from .. import gen, sgr
+from ..cells import BG_NAME, FG_NAME, STYLES, build, cells, observe, cells_of_desc, cells_of_str, fmt_of_atts, show
 from ..common import Res, call, exc_str, hyp_campaign
 
 PROP = "C14"
@@ -21,7 +21,7 @@ RULE = (
 )
 ASSUMPTIONS = [
     "wrong-case names ('RED', 'on_RED'): the code visibly intends case-insensitivity, so either working (as the lowered name) or ValueError is accepted, nothing else",
-    "copy_with_new_str is only judged on uniformly formatted strings (the statement says so), i.e. all runs incl. empty ones have the same formatting",
+    "copy_with_new_str is only judged on uniformly formatted strings (the statement says so): all characters share one formatting and no empty run carries an attribute the characters lack",
     "shared_atts on a FmtStr with no runs at all is not asserted",
 ]
 SHARDS = {"quick": 4, "thorough": 16}
@@ -126,6 +126,8 @@ def run_case(case):
             res.nontrivial = True
         touched.append(set(spec))
         res.label("via_" + layer.get("via", "fmtstr"))
+        if not isinstance(x, str) and case.get("obs"):
+            observe(x, case["obs"])
         y, e = call(apply_real, x, layer)
         if e is not None:
             res.viol("apply_raised", layer=layer, error=exc_str(e), case=case)
@@ -138,6 +140,11 @@ def run_case(case):
         if cells(y) != model:
             res.viol("cells_wrong_after_layer", layer=layer, got=show(cells(y)), expected=show(model), case=case)
             return res
+        if "\x1b" not in "".join(c[0] for c in model):
+            shown, gstate, problems = sgr.interpret(str(y))
+            if shown != model or problems or not gstate.is_default():
+                res.viol("terminal_string_disagrees_with_attributes", layer=layer, shown=show(shown), expected=show(model), case=case)
+                return res
         if cells(yr) != cells(y) or str(yr) != str(y):
             res.viol("spellings_disagree", layer=layer, got=str(y)[:200], reference=str(yr)[:200], case=case)
             return res
@@ -156,8 +163,14 @@ def run_case(case):
             res.viol("operand_changed_by_remove", case=case)
     # "uniformly formatted": every run - empty ones included - carries the same formatting (the statement does
     # not say what an empty run with different attributes contributes, so such bases are not judged)
-    run_fmts = {fmt_of_atts(c.atts) for c in x.chunks}
-    if case.get("new_str") is not None and model and len(run_fmts) == 1 and len({c[1:] for c in model}) == 1:
+    # (an empty run whose attributes are all among those of the characters cannot contradict them and is allowed)
+    char_items = set()
+    if model:
+        fg, bg, sty = model[0][1:]
+        char_items = ({("fg", fg)} if fg else set()) | ({("bg", bg)} if bg else set()) | {(s_, True) for s_ in sty}
+    char_val = dict(char_items)
+    empties_ok = all((v or None) == (char_val.get(k) or None) for c in x.chunks if len(c.s) == 0 for k, v in c.atts.items())
+    if case.get("new_str") is not None and model and empties_ok and len({c[1:] for c in model}) == 1:
         res.label("copy_with_new_str_uniform")
         y, e = call(lambda: x.copy_with_new_str(case["new_str"]))
         exp = [(ch,) + model[0][1:] for ch in case["new_str"]]
@@ -297,8 +310,20 @@ def layer_strategy():
 
 
 def strategy():
+    def uniform_with_empties(t):
+        fmt, texts, empt = t
+        runs = []
+        for i, tx in enumerate(texts):
+            if i in empt:
+                runs.append(["", {} if (i + len(texts)) % 2 else {k: v for k, v in list(fmt.items())[:1]}])
+            runs.append([tx, dict(fmt)])
+        return runs
+
+    uniform = st.tuples(gen.atts(allow_false=False), st.lists(gen.text("abc", 1, 3), min_size=1, max_size=3),
+                        st.sets(st.integers(0, 2), max_size=2)).map(uniform_with_empties)
     base = st.one_of(
-        st.fixed_dictionaries({"base": gen.desc(alphabet="abc \n", max_runs=4, max_len=3)}),
+        st.fixed_dictionaries({"base": uniform}),
+        st.fixed_dictionaries({"base": gen.desc_sized(alphabet="abc \n", max_runs=4, max_len=3)}),
         st.fixed_dictionaries({"base_str": gen.text("abc \n", 0, 4)}),
     )
     rest = st.fixed_dictionaries(
@@ -306,6 +331,7 @@ def strategy():
             "layers": st.lists(layer_strategy(), min_size=1, max_size=3),
             "remove": st.one_of(st.none(), st.lists(st.sampled_from(list(KINDS)), max_size=3, unique=True)),
             "new_str": st.one_of(st.none(), gen.text("xyz", 0, 3)),
+            "obs": gen.OBS,
         }
     )
     return st.tuples(base, rest).map(lambda t: {**t[0], **t[1]})
